@@ -185,6 +185,13 @@ def resume_from_gzindex(ck, P):
                   "status arm %s hands flush_bytes the whole field again on re-entry (no offset by gzindex): with a small avail_out the field "
                   "restarts on every call and the header never completes" % arm, where(fn, c.line))
         ck.call_sites += 1
+    # the field offset starts at 0 for every header: deflate() stores gzindex = 0 when it has written the fixed part of the
+    # gzip header (status GZip -> Extra); reset does not clear it, so a header abandoned mid-field would otherwise leak its offset
+    zero = [bi for bi, fp, root, rv, s_ in fn.field_writes() if fp[-1:] == ("gzindex",) and fn.const_of(rv) == 0]
+    at_start = [b for b in zero if any(sg.rel == "Eq" and "GZip" in sg.names and "status" in sg.names for sg in shape.dominating_sigs(fn, b))]
+    ck.decide(bool(at_start), R, "deflate:gzindex-start", "gzindex = 0 when the fixed header part has been written",
+              "deflate() no longer zeroes gzindex when it starts the variable part of a gzip header: after a reset in the middle of a "
+              "header field the next header's fields start at a stale offset", where(fn))
     fb = P.fn(Z + "deflate::flush_bytes")
     if ck.anchor("fn flush_bytes", fb):
         ck.use_fn(fb)
